@@ -82,12 +82,13 @@ theorem urlsOp_reject {known items : List String} {op : UOp} {u : String}
     simp [urlsOp, coerce_invalid hinv]
   | setSlice a b st us =>
     simp only [UOp.urls] at hu
-    simp [urlsOp, coerceAll_invalid hu hinv]
+    simp [urlsOp, urlsSetSlice, coerceAll_invalid hu hinv]
   | delete i => simp [UOp.urls] at hu
   | delSlice a b => simp [UOp.urls] at hu
   | clear => simp [UOp.urls] at hu
   | remove v => simp [UOp.urls] at hu
   | pop i => simp [UOp.urls] at hu
+  | reverse => simp [UOp.urls] at hu
 
 /-! ### webseeds / httpseeds -/
 
@@ -203,7 +204,7 @@ theorem tiersExtendLoop_reject {T : Tiers} {last : Option Tiers} {vs : List Tier
 theorem tiersSetItem_reject {T : Tiers} {i : Int} {v : TierVal} {u : String}
     (hu : u ∈ tierValUrls v) (hinv : accepts isUrl u = false) :
     tiersSetItem isUrl T i v = (none, .error .url) := by
-  simp [tiersSetItem, mkURLs_reject hu hinv]
+  simp [tiersSetItem, tiersSetItemT, mkURLs_reject hu hinv]
 
 theorem tiersSetSlice_reject {T : Tiers} {a b : Option Int} {vs : List TierVal} {u : String}
     (hu : u ∈ flatVals vs) (hinv : accepts isUrl u = false) :
@@ -291,6 +292,7 @@ theorem tiersOp_reject {T : Tiers} {op : TOp} {u : String}
   | clear => simp [TOp.urls] at hu
   | remove us => simp [TOp.urls] at hu
   | pop i => simp [TOp.urls] at hu
+  | reverse => simp [TOp.urls] at hu
 
 theorem mkTrackers_reject {v : TrackersVal} {u : String}
     (hu : u ∈ (TOp.set v).urls) (hinv : accepts isUrl u = false) :
